@@ -950,6 +950,7 @@ pub fn run(tier: Tier) -> i32 {
     rep.sample(json!({"acceptance_entry_points": ["Wsh::new", "Sh::new", "Bare::new", "Descriptor::new_*", "TapTree::leaf + Descriptor::new_tr", "Descriptor::from_str", "Wsh/Sh::from_str", "Miniscript::from_str", "Miniscript::from_str_insane"]}));
     rep.assume("reference defect predicates are computed from the structure (and the specification-table type) alone; 'mixed time locks' = some satisfying path needs a height- and a time-based lock of the same kind (the library's conservative flag on unsatisfiable paths is tolerated and counted)");
     let evals = rep.get("switch_evaluations") + rep.get("switch_combinations") + rep.get("limit_evaluations") + rep.get("acceptance_evaluations") + rep.get("inclusion_evaluations") + rep.get("lattice_pairs");
+    crate::terms::report_constructor_panics(&rep, "C12");
     rep.finish(
         states,
         transitions + evals,
